@@ -237,14 +237,15 @@ def serialise (arch : Arch) (sg : Sg) (scratch fast flash : Option MemTensor) : 
     match first with
     | .error e => .error e
     | .ok (s, q, f) =>
+      let cmd : MemTensor := { mkMem arch.flashArea .permanentCPU payload.length true with values := some payload }
       match f.values with
-      | none => .error .noValues
+      | none =>
+        -- a constants tensor without data (never created by this function): nothing fails as long as nothing is copied
+        if (sgItems sg).isEmpty then .ok ⟨some s, some q, some f, some cmd⟩ else .error .noValues
       | some vals =>
         match applyItems (sgItems sg) vals with
         | .error e => .error e
-        | .ok vals' =>
-          .ok ⟨some s, some q, some { f with values := some vals' },
-               some { mkMem arch.flashArea .permanentCPU payload.length true with values := some payload }⟩
+        | .ok vals' => .ok ⟨some s, some q, some { f with values := some vals' }, some cmd⟩
 
 /-- the loop `for sg in npu_subgraphs` of `compiler_driver`: the three shared tensors and one command-stream tensor per subgraph -/
 def serialiseAll (arch : Arch) : List Sg → Option MemTensor → Option MemTensor → Option MemTensor →
